@@ -65,6 +65,10 @@ inductive RespKind where
 
 inductive ReqBody where
   | none | sized (n : Nat) | chunked (cs : List Nat)
+  /-- not a request: bytes the head parser rejects at the first byte (400 path) -/
+  | bad
+  /-- `Connection: upgrade` + `Upgrade: websocket` -/
+  | upgrade
   deriving Repr, DecidableEq
 
 inductive HStep where
@@ -119,6 +123,8 @@ inductive Seg where
   | frame (n : Nat)
   /-- the payload decoder reports `Eof` here (no bytes) -/
   | pend
+  /-- `n` bytes that are not a request head: the parser fails as soon as one byte is buffered -/
+  | bad (n : Nat)
   deriving Repr, DecidableEq
 
 def hexLen : Nat → Nat
@@ -134,17 +140,18 @@ def Seg.size : Seg → Nat
   | .data n => n
   | .frame n => n
   | .pend => 0
+  | .bad n => n
 
 def chunkSegs : List Nat → List Seg
   | [] => [.frame 5, .pend]
   | c :: cs => .frame (hexLen c + 2) :: .data c :: .frame 2 :: chunkSegs cs
 
 def reqSegs (rid : Nat) (q : Req) : List Seg :=
-  .head rid q.headLen q.body ::
-    match q.body with
-    | .none => []
-    | .sized n => [.data n, .pend]
-    | .chunked cs => chunkSegs cs
+  match q.body with
+  | .bad => [.bad q.headLen]
+  | .none | .upgrade => [.head rid q.headLen q.body]
+  | .sized n => [.head rid q.headLen q.body, .data n, .pend]
+  | .chunked cs => .head rid q.headLen q.body :: chunkSegs cs
 
 def wireSegs : Nat → List Req → List Seg
   | _, [] => []
@@ -443,10 +450,16 @@ inductive Msg where
   matters here: `true` = `ConnectionType::Close`) -/
   | item (rid : Nat) (hasBody : Bool) (ctxClose : Bool)
   | error (statusLineLen : Nat)
+  /-- `DispatcherMessage::Upgrade` -/
+  | upgrade (rid : Nat)
   deriving Repr
 
 inductive ErrKind where
   | ioReset | writeZero | body | disconnectTimeout | tooLarge | fuel
+  /-- `DispatchError::Parse` of a malformed request -/
+  | parse
+  /-- not an error: `PollResponse::Upgrade` travelling through the response/flush loop -/
+  | upgrade
   deriving Repr, DecidableEq
 
 structure D where
@@ -471,6 +484,8 @@ structure D where
   codecClose : Bool := true
   /-- `error: Option<DispatchError>` -/
   error : Option ErrKind := none
+  /-- `DispatcherState::Upgrade`: the socket (with `write_buf`) belongs to the upgrade service -/
+  upgraded : Bool := false
 
 /-- `Dispatcher::new` -/
 def D.init (cfg : Cfg) (reqs : List Req) : D :=
@@ -494,6 +509,10 @@ def statusLine200 : Nat := 15
 def statusLine408 : Nat := 28
 /-- `HTTP/1.1 431 Request Header Fields Too Large` -/
 def statusLine431 : Nat := 44
+/-- `HTTP/1.1 400 Bad Request` -/
+def statusLine400 : Nat := 24
+/-- what the scripted upgrade service writes after the bytes it inherited (`UPGRADED`) -/
+def upgradeMarkerLen : Nat := 8
 
 inductive BodySize where
   | none | sized (n : Nat) | stream
@@ -659,7 +678,7 @@ def pollBody : Nat → BFut → World → BRes × BFut × World
 /-! ### decoding (`Codec::decode` on the segment view of `read_buf`) -/
 
 inductive Dec where
-  | item (rid : Nat) (body : ReqBody) | chunk (n : Nat) | eof | needMore | tooLarge
+  | item (rid : Nat) (body : ReqBody) | chunk (n : Nat) | eof | needMore | tooLarge | bad
   deriving Repr, DecidableEq
 
 def decodeOne : List Seg → Nat → Dec × List Seg × Nat
@@ -677,6 +696,8 @@ def decodeOne : List Seg → Nat → Dec × List Seg × Nat
     if n ≤ rb then decodeOne rest (rb - n)
     else (.needMore, .frame (n - rb) :: rest, 0)
   | .pend :: rest, rb => (.eof, rest, rb)
+  | .bad n :: rest, rb =>
+    if rb = 0 then (.needMore, .bad n :: rest, rb) else (.bad, .bad n :: rest, rb)
 
 /-- `handle_request` (l.793): install the service future and poll it once -/
 def handleRequest (e : Env) (d : D) (w : World) (rid : Nat) : D × World :=
@@ -696,7 +717,7 @@ def onItem (e : Env) (d : D) (w : World) (rid : Nat) (body : ReqBody) (segs : Li
   let _ := e
   let d := { d with pendSegs := segs, rb := rb, headTimer := .inactive }
   match body with
-  | .none => ({ d with drainable := false }, w)
+  | .none | .bad | .upgrade => ({ d with drainable := false }, w)
   | .sized _ => ({ d with payload := some rid, drainable := false }, w.setChan rid {})
   | .chunked _ => ({ d with payload := some rid, drainable := true }, w.setChan rid {})
 
@@ -706,6 +727,12 @@ def onTooLarge (d : D) (w : World) : D × World :=
   ({ d with payload := none, messages := d.messages ++ [.error statusLine431],
             flags := { d.flags with readDisc := true }, error := some .tooLarge }, w)
 
+/-- a malformed request (l.1009): 400, `READ_DISCONNECT`, the error is kept for the tail -/
+def onBad (d : D) (w : World) : D × World :=
+  let w := match d.payload with | some rid => setError w rid .incomplete | none => w
+  ({ d with payload := none, messages := d.messages ++ [.error statusLine400],
+            flags := { d.flags with readDisc := true }, error := some .parse }, w)
+
 /-- the decode loop of `poll_request` (l.896–1026); returns `updated` -/
 def decodeLoop (e : Env) : Nat → D → World → Bool → Bool × D × World
   | 0, d, w, upd => (upd, d, w.outOfFuel)
@@ -714,6 +741,9 @@ def decodeLoop (e : Env) : Nat → D → World → Bool → Bool × D × World
     | (.item rid body, segs, rb) =>
       match onItem e d w rid body segs rb with
       | (d, w) =>
+        -- an upgrade request is queued as such and ends the decode loop: what is left in
+        -- `read_buf` belongs to the upgraded connection (l.917)
+        if body == .upgrade then (true, { d with messages := d.messages ++ [.upgrade rid] }, w) else
         -- `Codec::decode` sets the encode context from the request head (`Close` unless
         -- keep-alive is enabled); for a queued request it travels with the message and the
         -- in-flight response keeps its own (l.913/l.960)
@@ -737,6 +767,9 @@ def decodeLoop (e : Env) : Nat → D → World → Bool → Bool × D × World
     | (.tooLarge, _, _) =>
       match onTooLarge d w with
       | (d, w) => (upd, d, w)
+    | (.bad, _, _) =>
+      match onBad d w with
+      | (d, w) => (upd, d, w)
 
 /-- `poll_request` (l.878) -/
 def pollRequest (e : Env) (d : D) (w : World) : Bool × D × World :=
@@ -747,6 +780,8 @@ def pollRequest (e : Env) (d : D) (w : World) : Bool × D × World :=
 
 inductive PR where
   | doNothing | drain | err (k : ErrKind)
+  /-- `PollResponse::Upgrade` -/
+  | upgrade
   deriving Repr, DecidableEq
 
 /-- the `while write_buf.len() < h1_write_buffer_size` loop of `State::SendPayload` (l.650–704);
@@ -780,6 +815,7 @@ def pollResponse (e : Env) : Nat → D → World → PR × D × World
       | .error sl :: rest =>
         let (d, w) := sendResponse e { d with messages := rest } w sl 0 .zero none
         pollResponse e fuel d w
+      | .upgrade _ :: rest => (.upgrade, { d with messages := rest }, w)
       | [] =>
         (.doNothing, { d with flags := { d.flags with keepAlive := d.payload.isNone && !d.codecClose } }, w)
     | .service h =>
@@ -924,6 +960,7 @@ def respFlushLoop (e : Env) (prFuel : Nat) : Nat → D → World → Option ErrK
   | fuel + 1, d, w =>
     match pollResponse e prFuel d w with
     | (.err k, d, w) => (some k, d, w)
+    | (.upgrade, d, w) => (some .upgrade, d, w)
     | (pr, d, w) =>
       let drain := pr == .drain
       let d :=
@@ -992,33 +1029,48 @@ def tailFlags (e : Env) (d : D) : D :=
     { d with flags := { d.flags with shutdown := true } }
   else d
 
-/-- the fix's wake condition (A) ∨ (B), see `normalTail` -/
-def fixWake (readBufWasFull : Bool) (d : D) (w : World) : Bool :=
+/-- the fixes' wake condition (A) ∨ (B) ∨ (C), see `normalTail` -/
+def fixWake (readBufWasFull pipelineWasFull : Bool) (d : D) (w : World) : Bool :=
   -- (A) the socket was not polled because `read_buf` was at its cap and the buffer has been
   -- drained since: resume reading
   (readBufWasFull && decide (d.rb < Consts.h1MaxBufferSize) && !d.flags.readDisc) ||
+  -- (C) the pipeline queue was full when `poll_request` ran, so buffered requests were left
+  -- undecoded, and the queue has drained since: decode them instead of waiting for the socket
+  (pipelineWasFull && decide (d.messages.length < Consts.h1MaxPipelined) && decide (d.rb > 0) &&
+    !d.flags.readDisc) ||
   -- (B) a payload dropped after `poll_request` saw it paused leaves buffered input that nothing
   -- would wake the task for
   ((match d.payload with | some rid => isDropped w rid | none => false) &&
     decide (d.rb > 0) && !d.flags.readDisc && decide (d.messages.length < Consts.h1MaxPipelined))
 
 /-- l.1430–1463 -/
-def tailDecide (fixed readBufWasFull : Bool) (d : D) (w : World) : Tail :=
+def tailDecide (fixed readBufWasFull pipelineWasFull : Bool) (d : D) (w : World) : Tail :=
   if isNone d.st && d.wlen = 0 && d.error.isSome then
     .ret (.err (d.error.getD .tooLarge)) { d with error := none } w
   else if isNone d.st && d.wlen = 0 && d.flags.finished && !d.flags.keepAlive && d.payload.isNone then
     .again { d with flags := { d.flags with finished := false, shutdown := true } } w
   else if isNone d.st && d.wlen = 0 && d.flags.shutdown then
     .again d w
-  else if (fixed && fixWake readBufWasFull d w) || d.flags.linger || d.flags.shutdown then
+  else if (fixed && fixWake readBufWasFull pipelineWasFull d w) || d.flags.linger || d.flags.shutdown then
     .ret .pending d w.wake
   else .ret .pending d w
 
 /-- normal branch, l.1407–1463 (after the response/flush loop); `readBufWasFull` is the fix's
 local -/
-def normalTail (e : Env) (readBufWasFull : Bool) (d : D) (w : World) : Tail :=
+def normalTail (e : Env) (readBufWasFull pipelineWasFull : Bool) (d : D) (w : World) : Tail :=
   if d.flags.writeDisc then .ret .ready d w
-  else tailDecide e.cfg.fixed readBufWasFull (tailFlags e d) w
+  else tailDecide e.cfg.fixed readBufWasFull pipelineWasFull (tailFlags e d) w
+
+/-- `DispatcherState::Upgrade`: the scripted upgrade service writes what it inherited in
+`write_buf` plus its marker, flushes, completes (`c04_sim.rs` `UpgradeFut`) -/
+def upgradeBranch (d : D) (w : World) : PollRes × D × World :=
+  match dFlush d w with
+  | (.err, d, w) => (.err .writeZero, d, w)
+  | (.pending, d, w) => (.pending, d, w)
+  | (.ready, d, w) => (.ready, d, w)
+
+/-- `upgrade()` (l.1278): the socket changes hands together with the unflushed response bytes -/
+def enterUpgrade (d : D) : D := ({ d with upgraded := true }).produce upgradeMarkerLen
 
 /-- `Dispatcher::poll` (l.1277), `DispatcherState::Normal`. `depth` bounds `return self.poll(cx)`. -/
 def poll (e : Env) (bigFuel : Nat) : Nat → D → World → PollRes × D × World
@@ -1035,17 +1087,21 @@ def poll (e : Env) (bigFuel : Nat) : Nat → D → World → PollRes × D × Wor
         | (.ok shouldDisconnect, d, w) =>
           -- fix (C04): `read_available` stopped at the cap: the read waker is not registered
           let readBufWasFull := decide (d.rb ≥ Consts.h1MaxBufferSize)
+          -- fix (C04p): `poll_request` is about to refuse because the pipeline queue is full
+          let pipelineWasFull := decide (d.messages.length ≥ Consts.h1MaxPipelined)
           let (d, w) := afterRead e shouldDisconnect d w
           match respFlushLoop e bigFuel bigFuel d w with
-          | (some k, d, w) => (.err k, d, w)
+          | (some k, d, w) =>
+            -- `PollResponse::Upgrade` ⇒ `return self.poll(cx)` in the `Upgrade` state (l.1426)
+            if k = .upgrade then upgradeBranch (enterUpgrade d) w else (.err k, d, w)
           | (none, d, w) =>
-            match normalTail e readBufWasFull d w with
+            match normalTail e readBufWasFull pipelineWasFull d w with
             | .ret r d w => (r, d, w)
             | .again d w => poll e bigFuel depth d w
 
 /-- one `Dispatcher::poll` call by the executor (`return self.poll(cx)` happens at most once) -/
 def pollTop (e : Env) (bigFuel : Nat) (d : D) (w : World) : PollRes × D × World :=
-  match poll e bigFuel 2 d w with
+  match (if d.upgraded then upgradeBranch d w else poll e bigFuel 2 d w) with
   | (r, d', w') => if w'.fuelOut then (.err .fuel, d', w') else (r, d', w')
 
 end ActixModel.DispWake
